@@ -409,6 +409,44 @@ def register(kernel):
            tactic="intros; cbv [GEN p_partition vopp]; tie_vec_norm; rewrite !map_map; reflexivity", **pfile)
 
 
+    # ------------------------------------------------------------------ C15: the entrywise complex arithmetic of utils/cplx.py
+    # elementwise reading (CplxTr): a complex tensor is read as one complex number (re, im); helpers are inlined from the current source
+    cf = dict(cplx=True, file="qucumber/utils/cplx.py", imports=["CBase", "Cplx"], cor_imports=["CplxR"])
+    CT = "intros; cbv [GEN %s fst snd]; cbn [nadd nsub nmul ndiv nopp nsqrt n0 n1 sqr ROps fst snd]; tie_cplx"
+    one = [("x", "(R * R)%type")]
+    two = [("x", "(R * R)%type"), ("y", "(R * R)%type")]
+    kernel("C15", name="cplx_conj", func="conj", inputs=[("x", "x", "C")], coq_params=one, result="C", thm_params=one, gen_args="x",
+           model="cconj ROps x", model_name="CBase.cconj (entry of Cplx.conj)", tactic=CT % "cconj",
+           corollaries=[("conj_is_the_complex_conjugate", "forall x : (R * R)%type, GEN x = Coquelicot.Complex.Cconj x",
+                         "intros x; rewrite TIE; exact (cconj_is_Cconj x)")], **cf)
+    kernel("C15", name="cplx_scalar_mult", func="scalar_mult", inputs=[("x", "x", "C"), ("y", "y", "C")], assume={"out": ("None", "NoneT")},
+           coq_params=two, result="C", thm_params=two, gen_args="x y",
+           model="cmul ROps x y", model_name="CBase.cmul (entry of Cplx.scalar_mult, out=None path)", tactic=CT % "cmul",
+           corollaries=[("scalar_mult_is_the_complex_product", "forall x y : (R * R)%type, GEN x y = Coquelicot.Complex.Cmult x y",
+                         "intros x y; rewrite TIE; exact (cmul_is_Cmult x y)")], **cf)
+    kernel("C15", name="cplx_elementwise_mult", func="elementwise_mult", inputs=[("x", "x", "C"), ("y", "y", "C")],
+           coq_params=two, result="C", thm_params=two, gen_args="x y",
+           model="cmul ROps x y", model_name="CBase.cmul (entry of Cplx.elementwise_mult)", tactic=CT % "cmul", **cf)
+    kernel("C15", name="cplx_absolute_value", func="absolute_value", inputs=[("x", "x", "C")], coq_params=one, result=F, thm_params=one, gen_args="x",
+           model="cabs ROps x", model_name="CBase.cabs (entry of Cplx.absolute_value)", tactic=CT % "cabs cnorm2 cmul cconj",
+           corollaries=[("absolute_value_is_the_modulus", "forall x : (R * R)%type, GEN x = Coquelicot.Complex.Cmod x",
+                         "intros x; rewrite TIE; exact (cabs_is_Cmod x)")], **cf)
+    kernel("C15", name="cplx_inverse", func="inverse", inputs=[("z", "z", "C")], coq_params=[("z", "(R * R)%type")], result="C",
+           thm_params=[("z", "(R * R)%type")], gen_args="z",
+           model="cinv ROps z", model_name="CBase.cinv (entry of Cplx.inverse)", tactic=CT % "cinv cnorm2 cmul cconj",
+           corollaries=[("inverse_inverts_every_nonzero_number", "forall z : (R * R)%type, z <> Coquelicot.Complex.RtoC 0 -> Coquelicot.Complex.Cmult z (GEN z) = Coquelicot.Complex.RtoC 1",
+                         "intros z Hz; rewrite TIE; exact (cinv_inverts z Hz)")], **cf)
+    kernel("C15", name="cplx_scalar_divide", func="scalar_divide", inputs=[("x", "x", "C"), ("y", "y", "C")],
+           coq_params=two, result="C", thm_params=two, gen_args="x y",
+           model="cdiv ROps x y", model_name="CBase.cdiv (entry of Cplx.scalar_divide)", tactic=CT % "cdiv cinv cnorm2 cmul cconj",
+           corollaries=[("scalar_divide_is_the_complex_quotient", "forall x y : (R * R)%type, GEN x y = Coquelicot.Complex.Cdiv x y",
+                         "intros x y; rewrite TIE; exact (cdiv_is_Cdiv x y)")], **cf)
+    kernel("C15", name="cplx_elementwise_division_equal_shapes", func="elementwise_division", inputs=[("x", "x", "C"), ("y", "y", "C")],
+           false_tests=["x.shape != y.shape"], coq_params=two, result="C", thm_params=two, gen_args="x y",
+           model="cediv ROps x y", model_name="Cplx.cediv (entry of Cplx.elementwise_division at equal shapes)", tactic=CT % "cediv cabs cnorm2 cmul cconj",
+           corollaries=[("elementwise_division_divides", "forall x y : (R * R)%type, y <> Coquelicot.Complex.RtoC 0 -> Coquelicot.Complex.Cmult (GEN x y) y = x",
+                         "intros x y Hy; rewrite TIE; exact (cediv_divides x y Hy)")], **cf)
+
 def register_corollaries(cor):
     """property-level facts stated over SEVERAL generated kernels at once (compiled with the combined generated file)"""
     # C05: the Markov kernel assembled from the TRANSLATED conditionals satisfies detailed balance with respect to the weight
